@@ -109,14 +109,29 @@ def set_args(argv):
     return options.args()
 
 
-def use_private_ids(start=0):
+def _value_like(obj):
+    return hasattr(obj, 'get_lock') and hasattr(obj, 'value')
+
+
+def use_private_ids(start=0, factory=None):
+    """Replace the cross-process id counter by a process-private one.  Only
+    done when the code under test still has a lock-protected counter object
+    under the expected name; otherwise it is left alone."""
     from ddsmt.nodes import Node
-    Node._Node__ID_COUNTER = PrivateCounter(start)
+    cur = Node.__dict__.get('_Node__ID_COUNTER')
+    if cur is None or not _value_like(cur):
+        return False
+    Node._Node__ID_COUNTER = (factory or PrivateCounter)(start)
+    return True
 
 
 def reset_ids(start=0):
     from ddsmt.nodes import Node
-    Node._Node__ID_COUNTER.value = start
+    cur = Node.__dict__.get('_Node__ID_COUNTER')
+    if cur is not None and _value_like(cur):
+        cur.value = start
+        return True
+    return False
 
 
 # --------------------------------------------------------------------------
